@@ -330,6 +330,35 @@ def check_textdoc(ctx, payloads, in_script):
         if p and out.count(p) != 1:
             ctx.violation("trusted-payload-not-verbatim", "HTMLTextDocument: trusted payload %r occurs %d times" % (p[:60], out.count(p)), dict(wit, output=out[:800]))
             return False
+    # the template holds the placeholder twice; rendering the same document again gives the same text again
+    doc = ht.HTMLTextDocument("<html><head>@@DEPS@@</head><body>b @@DEPS@@</body></html>", deps=[dep], deps_replace_pattern="@@DEPS@@")
+    first = doc.render()["html"]
+    second = doc.render()["html"]
+    if first != out or second != first:
+        ctx.violation("trusted-payload-not-verbatim", "HTMLTextDocument: rendering the same document twice gives different text (payloads duplicated?)", dict(wit, second=second[:800]))
+        return False
+    return True
+
+
+def check_list_arithmetic(ctx, p):
+    """Trusted markup that reaches a child list through + / += / extend with the HTML() object itself as the operand."""
+    wit = {"list_arithmetic_payload": p}
+    ctx.count("oracle.list_arithmetic")
+    outs = []
+    a = ht.TagList(ht.span("k")) + ht.HTML(p)
+    outs.append(("TagList + HTML", a.get_html_string()))
+    b = ht.TagList(ht.span("k"))
+    b += ht.HTML(p)
+    outs.append(("TagList += HTML", b.get_html_string()))
+    c = ht.div(ht.span("k"))
+    c.extend(ht.HTML(p))
+    outs.append(("Tag.extend(HTML)", c.get_html_string()))
+    d = ht.HTML(p) + ht.TagList(ht.span("k"))
+    outs.append(("HTML + TagList", d.get_html_string() if isinstance(d, ht.TagList) else str(d)))
+    for how, out in outs:
+        if p and p not in out:
+            ctx.violation("trusted-payload-not-verbatim", "%s: trusted payload %r is not in the output verbatim" % (how, p[:60]), dict(wit, how=how, output=out[:600]))
+            return False
     return True
 
 
@@ -378,6 +407,8 @@ def check_json_pipeline(ctx, payloads):
 
 
 def replay(ctx, w):
+    if "list_arithmetic_payload" in w:
+        return check_list_arithmetic(ctx, w["list_arithmetic_payload"])
     if "head_twins" in w:
         return check_head_twins(ctx, w["head_twins"])
     if "json_pipeline_payloads" in w:
@@ -465,6 +496,7 @@ def _run(ctx):
         check_textdoc(ctx, ps, insc)
         if rng.random() < 0.5:
             ctx.guard(check_json_pipeline, ctx, ps, witness={"json_pipeline_payloads": ps})
+        ctx.guard(check_list_arithmetic, ctx, ps[0], witness={"list_arithmetic_payload": ps[0]})
         if rng.random() < 0.5 and "<" in ps[0] and "\r" not in ps[0]:
             ctx.guard(check_head_twins, ctx, ps[0], witness={"head_twins": ps[0]})
         ctx.case(("textdoc", ps, insc), nontrivial=any("\\" in p or set(p) & set("&<>") for p in ps))
